@@ -572,3 +572,7 @@ def replay(case):
         shutil.rmtree(T, ignore_errors=True)
 
 MANIFEST['text'] += " Missing root directories, path-parameter (';') spellings and the download argument (decoys of that name outside the root) are part of the enumeration (12 root spellings)."
+MANIFEST['text'] += " An E-SCHED layer runs two static_file calls for one root on two threads (six name pairs, two root spellings) under every schedule with <= 1 preemption; a mirror tree whose path contains the root's absolute path is part of the decoys."
+if 'E-SCHED' not in MANIFEST['engines']:
+    MANIFEST['engines'] = list(MANIFEST['engines']) + ['E-SCHED']
+MANIFEST['technique'] += '; stateless exploration of all two-thread schedules (preemption-bounded, source-line scheduling points) for the state the property could park on shared objects'
